@@ -17,73 +17,120 @@ def _chain_funcs(site):
     return [c.split(":", 1)[0] for c in site.chain]
 
 
+def _recv(site):
+    """receiver expression (AST, in the current function) of the first chain element."""
+    a = site.call
+    if a is None:
+        return None
+    if site.evkind == "call" and isinstance(a.func, ast.Attribute):
+        return a.func.value
+    if site.evkind in ("store_attr", "load_prop"):
+        return a.value
+    return None
+
+
+def _is_self(f, e):
+    return isinstance(e, ast.Name) and bool(f.params) and f.has_self and e.id == f.params[0]
+
+
+def _callee(site):
+    return site.tgt.name if site.tgt is not None else ""
+
+
+def _fresh(atom, f, node, e):
+    """every object `e` may denote was created in this activation (clone / constructor result)."""
+    if e is None:
+        return False
+    try:
+        os_ = atom.s.origin(e, f, node)
+    except Exception:
+        return False
+    return bool(os_) and all(r == "FRESH" for r, _ in os_)
+
+
 def inv_i_remove(atom, f, node, site):
     """X._parent.remove(X) under `X._parent is not None`: X is listed in its parent (invariant I of C03)."""
-    if site.origin[0] != "base.SmartList.index" or not site.chain:
+    if site.origin[0] != "base.SmartList.index" or not site.chain or site.evkind != "call" or _callee(site) != "remove":
         return False
-    first = _chain_calls(site)[0]
-    if not first.endswith("._parent.remove"):
+    c = site.call
+    recv = _recv(site)
+    if recv is None or not (isinstance(recv, ast.Attribute) and recv.attr in ("_parent", "parent")):
         return False
-    recv = norm(first[:-len(".remove")])
-    obj = recv[:-len("._parent")]
-    # the call's argument is that object and the pointer is known to be set
-    for r in node.expr_roots():
-        for c in ast.walk(r):
-            if isinstance(c, ast.Call) and isinstance(c.func, ast.Attribute) and c.func.attr == "remove" \
-                    and norm(c.func.value) == recv and c.args and norm(c.args[0]) == obj:
-                facts = atom.R.facts_at(f, node)
-                return ("%s._parent is None" % obj, False) in facts or ("%s._parent" % obj, True) in facts
-    return False
+    obj = norm(recv.value)
+    if not (c.args and norm(c.args[0]) == obj):
+        return False
+    facts = atom.R.facts_at(f, node)
+    return ("%s._parent is None" % obj, False) in facts or ("%s._parent" % obj, True) in facts
 
 
 def validated_conversion(atom, f, node, site):
     """dtypes.get(v, self.dtype) for v in X after self._validate_values(X) returned True on this path:
     _validate_values performed exactly these calls inside try/except Exception."""
-    if not site.chain or not _chain_calls(site)[0] == "dtypes.get":
+    if not site.chain or site.evkind != "call" or site.tgt is None or site.tgt.short != "dtypes.get":
         return False
     if not (site.origin[0].startswith("dtypes.")):
         return False
+    me = f.params[0] if f.params else "self"
     facts = atom.R.facts_at(f, node)
-    validated = [t[len("self._validate_values("):-1] for t, p in facts if p is True and t.startswith("self._validate_values(")]
+    pre = "%s._validate_values(" % me
+    validated = [t[len(pre):-1] for t, p in facts if p is True and t.startswith(pre)]
     if not validated:
         return False
     # the converted values are the validated ones: comprehension over X, or X[0]
-    for r in node.expr_roots():
-        for c in ast.walk(r):
-            if isinstance(c, ast.Call) and norm(c.func) == "dtypes.get" and c.args:
-                a = c.args[0]
-                if isinstance(a, ast.Subscript) and norm(a.value) in validated:
+    c = site.call
+    if not c.args:
+        return False
+    a = c.args[0]
+    if isinstance(a, ast.Subscript) and norm(a.value) in validated:
+        return _validate_values_shape(atom)
+    if isinstance(a, ast.Name):
+        for r in node.expr_roots():
+            for comp in ast.walk(r):
+                if isinstance(comp, ast.comprehension) and isinstance(comp.target, ast.Name) and comp.target.id == a.id \
+                        and norm(comp.iter) in validated:
                     return _validate_values_shape(atom)
-                if isinstance(a, ast.Name):
-                    for comp in ast.walk(r):
-                        if isinstance(comp, ast.comprehension) and isinstance(comp.target, ast.Name) and comp.target.id == a.id \
-                                and norm(comp.iter) in validated:
-                            return _validate_values_shape(atom)
     return False
 
 
 def _validate_values_shape(atom):
-    """obligation: BaseProperty._validate_values converts every value with dtypes.get(val, self.dtype) inside a
-    try whose handler catches Exception and returns False."""
+    """obligation: BaseProperty._validate_values loops over its argument and converts every element with
+    dtypes.get(<element>, self.dtype) inside a try whose handler catches Exception (or everything) and returns False."""
     f = atom.an.p.func("property.BaseProperty._validate_values")
-    src = ast.unparse(f.node)
-    return "dtypes.get(val, self.dtype)" in src and "except Exception" in src and "return False" in src
+    if len(f.params) < 2:
+        return False
+    me, arg = f.params[0], f.params[1]
+    for loop in ast.walk(f.node):
+        if not (isinstance(loop, ast.For) and isinstance(loop.iter, ast.Name) and loop.iter.id == arg and isinstance(loop.target, ast.Name)):
+            continue
+        for tr in ast.walk(loop):
+            if not isinstance(tr, ast.Try):
+                continue
+            conv = [c for st in tr.body for c in ast.walk(st) if isinstance(c, ast.Call) and ast.unparse(c.func) == "dtypes.get"
+                    and len(c.args) == 2 and isinstance(c.args[0], ast.Name) and c.args[0].id == loop.target.id
+                    and ast.unparse(c.args[1]) in ("%s.dtype" % me, "%s._dtype" % me)]
+            catch_all = [h for h in tr.handlers if h.type is None or ast.unparse(h.type) in ("Exception", "BaseException")]
+            ret_false = [h for h in catch_all if any(isinstance(x, ast.Return) and isinstance(x.value, ast.Constant) and x.value.value is False
+                                                     for x in ast.walk(h))]
+            if conv and ret_false:
+                return True
+    return False
 
 
 def merge_extend_after_check(atom, f, node, site):
     """Property.merge -> self.extend(...): extend's refusals (unconvertible values, strict dtype mismatch) were
     checked by merge_check on the same values (obligations DOM-6, VAL-1, SIB-2 in C13)."""
-    return f.short == "property.BaseProperty.merge" and site.chain and _chain_calls(site)[0] == "self.extend"
+    return f.short == "property.BaseProperty.merge" and bool(site.chain) and site.evkind == "call" and _callee(site) == "extend" \
+        and _is_self(f, _recv(site))
 
 
 def merge_recursion_after_check(atom, f, node, site):
-    """Section.merge -> mine.merge(obj, strict): the nested merge_check visits pairs the outer merge_check
+    """Section.merge -> <own child>.merge(obj, strict): the nested merge_check visits pairs the outer merge_check
     already visited with the same strict flag (obligation SIB-2, FWD-1 in C13)."""
-    if f.short != "section.BaseSection.merge" or not site.chain:
+    if f.short != "section.BaseSection.merge" or not site.chain or site.evkind != "call" or _callee(site) != "merge":
+        return False
+    if _is_self(f, _recv(site)):
         return False
     calls = _chain_calls(site)
-    if calls[0] != "mine.merge":
-        return False
     if "self.merge_check" in calls[1:3] or site.origin[0].endswith("merge_check"):
         return True
     # the kind test of the nested merge: contains() returns an object of the same kind as its argument
@@ -96,7 +143,8 @@ def merge_append_property_clone(atom, f, node, site):
     if f.short != "section.BaseSection.merge" or site.origin[0] != "base.SmartList.append" or site.exc != "KeyError":
         return False
     calls = _chain_calls(site)
-    return len(calls) >= 2 and calls[0] == "self.append" and calls[1] == "self._props.append"
+    return len(calls) >= 2 and site.evkind == "call" and _callee(site) == "append" and _is_self(f, _recv(site)) \
+        and calls[1] == "self._props.append"
 
 
 def unmerge_remove_found_child(atom, f, node, site):
@@ -104,7 +152,7 @@ def unmerge_remove_found_child(atom, f, node, site):
     nothing was removed in between, so SmartList.index finds it."""
     if f.short != "section.BaseSection.unmerge" or site.origin[0] not in ("base.SmartList.index", "section.BaseSection.remove"):
         return False
-    return bool(site.chain) and _chain_calls(site)[0] == "self.remove"
+    return bool(site.chain) and site.evkind == "call" and _callee(site) == "remove" and _is_self(f, _recv(site))
 
 
 def clone_append_unique_names(atom, f, node, site):
@@ -113,20 +161,22 @@ def clone_append_unique_names(atom, f, node, site):
     if f.short not in ("base.Sectionable.clone", "section.BaseSection.clone"):
         return False
     return site.origin[0] == "base.SmartList.append" and site.exc == "KeyError" and bool(site.chain) \
-        and _chain_calls(site)[0] == "obj.append"
+        and site.evkind == "call" and _callee(site) == "append" and _fresh(atom, f, node, _recv(site))
 
 
 def clone_values_conform(atom, f, node, site):
-    """Property.clone -> obj.values = self._values: the stored values already conform to the Property's dtype (C05),
+    """Property.clone -> <copy>.values = self._values: the stored values already conform to the Property's dtype (C05),
     so the values setter of the copy (same dtype) cannot refuse them."""
-    return f.short == "property.BaseProperty.clone" and bool(site.chain) and _chain_calls(site)[0] == "obj.values =" \
-        and site.origin[0] in ("property.BaseProperty.values.setter", "property.BaseProperty._convert_value_input")
+    if not (f.short == "property.BaseProperty.clone" and bool(site.chain) and site.evkind == "store_attr" and site.call.attr == "values"):
+        return False
+    return _fresh(atom, f, node, _recv(site)) and site.origin[0] in ("property.BaseProperty.values.setter", "property.BaseProperty._convert_value_input")
 
 
 def export_leaf_appends_clones(atom, f, node, site):
-    """Section.export_leaf -> par.append(child): child is `self` only in the first iteration, where the guard
+    """Section.export_leaf -> <parent clone>.append(child): child is `self` only in the first iteration, where the guard
     `curr != self` is false; afterwards child is the fresh clone built in the previous iteration."""
-    return f.short == "section.BaseSection.export_leaf" and bool(site.chain) and _chain_calls(site)[0] == "par.append"
+    return f.short == "section.BaseSection.export_leaf" and bool(site.chain) and site.evkind == "call" and _callee(site) == "append" \
+        and not _is_self(f, _recv(site)) and isinstance(_recv(site), ast.Name)
 
 
 ATOM_CONTRACTS = [
